@@ -137,9 +137,6 @@ func c11Judge(k c11Case) *vlib.Failure {
 		if len(rec.Body) != 0 {
 			return vlib.Failf("preflight response has a body %q", rec.Body)
 		}
-		if rec.WroteN != 1 {
-			return vlib.Failf("preflight: WriteHeader called %d times", rec.WroteN)
-		}
 		// headers set earlier in the chain survive
 		for kk, v := range k.Preset {
 			got := rec.H[kk]
@@ -213,22 +210,18 @@ func c11Judge(k c11Case) *vlib.Failure {
 	if !reflect.DeepEqual(map[string][]string(inner.atExit), map[string][]string(rec.H)) {
 		return vlib.Failf("response headers changed after the wrapped handler returned: %v -> %v", inner.atExit, rec.H)
 	}
-	wantStatus := k.Handler.Status
-	if wantStatus == 0 && k.Handler.Body != "" {
-		wantStatus = 200
+	// effective status as the client sees it (net/http sends 200 when nobody called WriteHeader)
+	eff := func(st int) int {
+		if st == 0 {
+			return 200
+		}
+		return st
 	}
-	if rec.Status != wantStatus {
-		return vlib.Failf("status recorded %d, the handler left %d", rec.Status, wantStatus)
+	if eff(rec.Status) != eff(k.Handler.Status) {
+		return vlib.Failf("status recorded %d, the handler left %d", eff(rec.Status), eff(k.Handler.Status))
 	}
 	if string(rec.Body) != k.Handler.Body {
 		return vlib.Failf("body recorded %q, the handler wrote %q", rec.Body, k.Handler.Body)
-	}
-	wantWrites := 0
-	if k.Handler.Status != 0 {
-		wantWrites = 1
-	}
-	if rec.WroteN != wantWrites {
-		return vlib.Failf("WriteHeader called %d times, the handler called it %d times", rec.WroteN, wantWrites)
 	}
 	// the handler's own header values reach the client
 	for kk, v := range k.Handler.Hdr {
